@@ -98,13 +98,19 @@ func c21ops() []vop {
 		{"removepages", 2, "", func(d string, in []byte, v int) ([][]byte, error) {
 			return buf(func(rs io.ReadSeeker, w io.Writer) error { return api.RemovePages(rs, w, sels[v+1], newConf()) }, in)
 		}},
-		{"addkeywords", 2, "", func(d string, in []byte, v int) ([][]byte, error) {
-			return buf(func(rs io.ReadSeeker, w io.Writer) error { return api.AddKeywords(rs, w, [][]string{{"k"}, {"ü €", "two words"}}[v], newConf()) }, in)
+		{"addkeywords", 2 + len(c21Hazards), "", func(d string, in []byte, v int) ([][]byte, error) {
+			kws := [][]string{{"k"}, {"ü €", "two words"}}
+			for _, h := range c21Hazards {
+				kws = append(kws, []string{h, "plain"})
+			}
+			return buf(func(rs io.ReadSeeker, w io.Writer) error { return api.AddKeywords(rs, w, kws[v], newConf()) }, in)
 		}},
-		{"addproperties", 2, "", func(d string, in []byte, v int) ([][]byte, error) {
-			return buf(func(rs io.ReadSeeker, w io.Writer) error {
-				return api.AddProperties(rs, w, []map[string]string{{"A": "1"}, {"Ключ": "(x)\\", "B": ""}}[v], newConf())
-			}, in)
+		{"addproperties", 2 + 2*len(c21Hazards), "", func(d string, in []byte, v int) ([][]byte, error) {
+			ps := []map[string]string{{"A": "1"}, {"Ключ": "(x)\\", "B": ""}}
+			for _, h := range c21Hazards {
+				ps = append(ps, map[string]string{"Key": h}, map[string]string{h: "value"}) // hazard as value and as key
+			}
+			return buf(func(rs io.ReadSeeker, w io.Writer) error { return api.AddProperties(rs, w, ps[v], newConf()) }, in)
 		}},
 		{"setpagelayout", 6, "", func(d string, in []byte, v int) ([][]byte, error) {
 			return buf(func(rs io.ReadSeeker, w io.Writer) error { return api.SetPageLayout(rs, w, model.PageLayout(v), newConf()) }, in)
@@ -182,13 +188,23 @@ func c21ops() []vop {
 			}
 			return buf(func(rs io.ReadSeeker, w io.Writer) error { return api.AddAnnotations(rs, w, sels[v/2], ann, newConf()) }, in)
 		}},
-		{"addbookmarks", 3, "", func(d string, in []byte, v int) ([][]byte, error) {
-			bms := [][]pdfcpu.Bookmark{
+		{"addbookmarks", 3 + len(c21Hazards) + 4, "", func(d string, in []byte, v int) ([][]byte, error) {
+			all := [][]pdfcpu.Bookmark{
 				{{Title: "One", PageFrom: 1}},
 				{{Title: "ü(", PageFrom: 1, Bold: true, Kids: []pdfcpu.Bookmark{{Title: "kid", PageFrom: 1, Italic: true}}}},
 				{{Title: "A", PageFrom: 1}, {Title: "B", PageFrom: 1}},
-			}[v]
-			return buf(func(rs io.ReadSeeker, w io.Writer) error { return api.AddBookmarks(rs, w, bms, true, newConf()) }, in)
+			}
+			for _, h := range c21Hazards {
+				all = append(all, []pdfcpu.Bookmark{{Title: h, PageFrom: 1}, {Title: "after", PageFrom: 1}})
+			}
+			// page boundary values and colour
+			all = append(all,
+				[]pdfcpu.Bookmark{{Title: "zero", PageFrom: 0}},
+				[]pdfcpu.Bookmark{{Title: "beyond", PageFrom: 9999}},
+				[]pdfcpu.Bookmark{{Title: "negative", PageFrom: -1}},
+				[]pdfcpu.Bookmark{{Title: "deep", PageFrom: 1, Kids: []pdfcpu.Bookmark{{Title: "k1", PageFrom: 1, Kids: []pdfcpu.Bookmark{{Title: "k2", PageFrom: 1}}}}}},
+			)
+			return buf(func(rs io.ReadSeeker, w io.Writer) error { return api.AddBookmarks(rs, w, all[v], true, newConf()) }, in)
 		}},
 		{"addattachment", 2, "", func(d string, in []byte, v int) ([][]byte, error) {
 			p := filepath.Join(d, []string{"a.txt", "ä b.bin"}[v])
@@ -502,3 +518,8 @@ var c21ViewerPrefs = func() []string {
 	}
 	return out
 }()
+
+
+// c21Hazards: strings with one representative per lexical hazard of the PDF syntax and of text encodings.
+var c21Hazards = []string{"", " ", "(", ")", "((", "\\", "a\nb", "a\rb", "\t", "<", ">", "[", "]", "/", "#", "%", "ü", "€", "日本", "\u2028", "\x7f", "\x01",
+	strings.Repeat("long ", 80), "a(b)c\\d", "D:20240101", "true", "null", "1 0 R"}
